@@ -27,6 +27,8 @@ func runC02(c *Ctx) {
 	c.ruleLimitWrites("R02.3")
 	c.ruleOneDispatcher("R02.4")
 	c.ruleDispatcherJoined("R02.5")
+	// the capacity check-then-act is sound only with one actor: nobody but the dispatcher goroutine runs the step
+	c.ruleSingleConsumer("R02.6")
 }
 
 // capSym recognises a comparison of the in-flight counter with the limit and
